@@ -95,6 +95,15 @@ fn parse<'a, T>(bytes: &'a [u8]) -> Result<T, ExtractUrlEncodedBodyError>
 where
     T: Deserialize<'a>,
 {
+    // `form_urlencoded::parse` would silently replace invalid UTF-8 with U+FFFD.
+    if let Some(raw) = crate::request::urlencoded_utf8::find_invalid_utf8(bytes) {
+        let source = <serde_html_form::de::Error as serde::de::Error>::custom(
+            crate::request::urlencoded_utf8::invalid_utf8_message(&raw),
+        );
+        return Err(ExtractUrlEncodedBodyError::DeserializationError(
+            UrlEncodedBodyDeserializationError { source },
+        ));
+    }
     serde_html_form::from_bytes(bytes)
         .map_err(|e| UrlEncodedBodyDeserializationError { source: e })
         .map_err(ExtractUrlEncodedBodyError::DeserializationError)
